@@ -183,6 +183,39 @@ func mutants(base *ref.Program, limit int) []mutant {
 					cl.Style = 1
 					return true
 				})
+				for drop := 1; drop <= 3; drop++ {
+					drop := drop
+					add(fmt.Sprintf("call of a name that is the end of an existing template's name (%d segments dropped)", drop), func(p *ref.Program) bool {
+						tm, b, _ := nthBlock(p, bi)
+						cl := (*b)[ci].Call
+						segs := strings.Split(cl.Target, ".")
+						if len(segs)-drop < 2 {
+							return false
+						}
+						tail := strings.Join(segs[drop:], ".")
+						if _, known := p.FindTemplate(tail); known != nil {
+							return false
+						}
+						// (not where an alias of the file would turn the shortened name into a full one again)
+						for fi := range p.Files {
+							for ti := range p.Files[fi].Templates {
+								if &p.Files[fi].Templates[ti] != tm {
+									continue
+								}
+								for _, a := range p.Files[fi].Aliases {
+									if a[strings.LastIndex(a, ".")+1:] == segs[drop] {
+										return false
+									}
+								}
+							}
+						}
+						cl.Target, cl.Style = tail, 1
+						if drop%2 == 0 {
+							cl.Style = 3 // (the name="..." attribute)
+						}
+						return true
+					})
+				}
 				for pi := range c.Call.Params {
 					pi := pi
 					add(fmt.Sprintf("param %s replaced by data=\"all\" plus a same-named let (locals are not forwarded)", c.Call.Params[pi].Key), func(p *ref.Program) bool {
